@@ -282,6 +282,7 @@ def getBH_level2(
     mask_reset = [max_path_len != pl for pl in path_lengths]
     reset_obj = [obj for obj, mask in zip(obj_list, mask_reset) if mask]
     reset_obj_m0 = [pl for pl, mask in zip(path_lengths, mask_reset) if mask]
+    reset_obj_path = [(obj._position, obj._orientation) for obj in reset_obj]
 
     # tiled paths must be reset whatever happens during the computation
     try:
@@ -406,9 +407,9 @@ def getBH_level2(
             B = np.concatenate(Bagg, axis=2)
     finally:
         # reset tiled objects
-        for obj, m0 in zip(reset_obj, reset_obj_m0):
-            obj._position = obj._position[:m0]
-            obj._orientation = obj._orientation[:m0]
+        for obj, (pos, ori) in zip(reset_obj, reset_obj_path):
+            obj._position = pos
+            obj._orientation = ori
 
     # sumup over sources
     if sumup:
